@@ -31,7 +31,7 @@ func genC05(dir, tier string, seed int64) {
 		n = 15000
 	}
 	cw := newCaseWriter(dir, "C05_conv", opHeader("CheckC05"), opFooter,
-		"seeded random, stratified: 1-D and 2-D; N,C,M in 1..3; spatial extents 2..7 per axis independently (non-square; 1 in one axis of six); kernel extents 1..3 per axis independently (extent 1 kept a minority: mostly refused); strides 1..3 and dilations 1..2 per axis independently; pads 0..2 per side independently; auto_pad in {absent, NOTSET, SAME_UPPER, SAME_LOWER, VALID}; kernel_shape given or inferred; group absent, 1, or (1 case in 14 each) another value / an attribute Conv does not know, inserted at a random position of the attribute list, with the weight shape of a grouped convolution in half of them; bias present/absent; float32 and float64; integer-valued data in -3..3 so that float arithmetic is exact and results are compared exactly", false, 300)
+		"seeded random, stratified: 1-D and 2-D; N,C,M in 1..3 (one case in eight with 4..9 kernels, one in twelve with 4..6 channels / 4..5 samples); spatial extents 2..7 per axis independently (non-square; 1 in one axis of six); kernel extents 1..3 per axis independently (extent 1 kept a minority: mostly refused); strides 1..3 and dilations 1..2 per axis independently; pads 0..2 per side independently; auto_pad in {absent, NOTSET, SAME_UPPER, SAME_LOWER, VALID}; kernel_shape given or inferred; group absent, 1, or (1 case in 14 each) another value / an attribute Conv does not know, inserted at a random position of the attribute list, with the weight shape of a grouped convolution in half of them; bias present/absent; float32 and float64; integer-valued data in -3..3 so that float arithmetic is exact and results are compared exactly", false, 300)
 	r := rand.New(rand.NewSource(seed))
 	for c := 0; c < n; c++ {
 		nsp := 1 + r.Intn(2)
@@ -39,6 +39,15 @@ func genC05(dir, tier string, seed int64) {
 			nsp = 2
 		}
 		N, C, M := 1+r.Intn(3), 1+r.Intn(3), 1+r.Intn(3)
+		if r.Intn(8) == 0 {
+			M = 4 + r.Intn(6) // 4..9 kernels
+		}
+		if r.Intn(12) == 0 {
+			C = 4 + r.Intn(3)
+		}
+		if r.Intn(12) == 0 {
+			N = 4 + r.Intn(2)
+		}
 		sp, ks := make([]int, nsp), make([]int, nsp)
 		str, dil := make([]int64, nsp), make([]int64, nsp)
 		pads := make([]int64, 2*nsp)
